@@ -676,6 +676,8 @@ func c13Eval(c *Ctx, kind string, raw []byte) {
 		heapPatchOpEval(c, raw) // heap_share2.go
 	case "heap-setop":
 		heapSetOpEval(c, raw) // heap_share2.go
+	case "large":
+		c13EvalLarge(c, raw) // c13_more.go
 	case "set":
 		c13EvalSet(c, raw)
 	case "template":
@@ -724,7 +726,7 @@ func c13EvalSet(c *Ctx, raw []byte) {
 	before := nodeWire(gd)
 	op := &pipeline.SetOp{Path: p.Path}
 	if p.Payload != nil {
-		op.Data = wirePlain(p.Payload).(map[string]any)
+		op.Data = c13SharedPayload(p.Payload) // equal subtrees are ONE Go object (c13_more.go)
 	}
 	strategy := "merge"
 	if p.Strategy != nil {
@@ -1137,6 +1139,7 @@ func c13EvalPatch(c *Ctx, raw []byte) {
 	}
 	c.Direct("patch-op-has-exactly-the-effect-of-patch.Do", tagA == tagB && canon(afterA) == canon(afterB),
 		map[string]any{"PatchOp": map[string]any{"out": tagA, "text": txtA, "data": afterA}, "patch.Do": map[string]any{"out": tagB, "data": afterB}})
+	c13PatchRFC(c, &p, seen, valueWire, tagA, afterA) // ... and of the RFC 6902 operation itself (c13_patch.go)
 	// a later edit inside the subtree placed through valueFrom does not show at its source
 	if p.Value == nil && p.ValueFrom != nil && tagA == "ok" && (p.Op == "add" || p.Op == "replace") {
 		src, sok := c13WireAt(p.Data, *p.ValueFrom)
